@@ -443,6 +443,7 @@ func init() {
 
 	// HashToScalar's wide reduction is two scalar multiplications and two additions: the scalar arithmetic is checked
 	// as a seam under C09 as well (its own inputs reach a defective operand class only by brute force over SHA-256).
+	Parts["C06lite"] = Part{"C06", c06SeamLight}
 	Parts["C09scalar"] = Part{"C09", c06SeamFull}
 	Parts["C06"] = Part{"C06", C06}
 	Replayers["C06"] = func(c Case) (bool, string) {
